@@ -57,8 +57,9 @@ type gTask struct {
 	Precond   int    // 0 none 1 passing 2 failing
 	Prompt    bool
 	Internal  bool
-	VUse      string // "cmd" (default), "env", "sub": where a when_changed task lets V surface
+	VUse      string // "cmd" (default), "env": where a when_changed task lets V surface
 	Dir       string
+	DynVar    bool
 }
 
 type gRoot struct {
@@ -81,6 +82,7 @@ type gProg struct {
 	ExitCodeFlag bool
 	FileSilent bool
 	CancelAtEvent int // 0 = none; cancel the caller ctx at the k-th probe event
+	IncDefaultV   bool // the included Taskfile declares a top-level var V ('incv'): call vars must still win
 	IncSplit      int // 0 = single file; otherwise tasks with Idx >= IncSplit live in inc/Taskfile.yml, included as namespace "n"
 }
 
@@ -115,6 +117,7 @@ type gBias struct {
 	Cancel       bool
 	FanIn        bool
 	Matrix       bool
+	DynVars      bool // tasks get a dynamic (sh:) variable (race-sim: exercises the dynamic variable cache)
 }
 
 func effRun(p *gProg, t *gTask) string {
@@ -148,6 +151,11 @@ func genRef(ch *vs.Choices, p *gProg, from, n int, b gBias, allowLoop bool) (gRe
 	case 1, 2:
 		r.VMode = vLit
 		r.VLit = vPool[ch.Draw(len(vPool))]
+		if b.VEnvSub && ch.Bool(1, 2) {
+			// a second variable W (only rendered for targets whose variables surface in env only): the pair
+			// (V,W) is written as a two-letter value, so (a,b) and (b,a) are different calls
+			r.VLit += vPool[ch.Draw(len(vPool))]
+		}
 	case 3:
 		r.VMode = vInherit
 	}
@@ -171,6 +179,7 @@ func genG(ch *vs.Choices, b gBias) *gProg {
 	p.FileSilent = ch.Bool(1, 2)
 	if n >= 3 && ch.Bool(1, 3) {
 		p.IncSplit = 2 + ch.Draw(n-2)
+		p.IncDefaultV = ch.Bool(1, 3)
 	}
 	for i := 0; i < n; i++ {
 		t := &gTask{Idx: i, Name: fmt.Sprintf("t%d", i)}
@@ -243,6 +252,7 @@ func genG(ch *vs.Choices, b gBias) *gProg {
 				t.Precond = 2
 			}
 		}
+		t.DynVar = b.DynVars && ch.Bool(1, 2)
 		if b.VEnvSub && t.Run == "when_changed" && ch.Bool(1, 2) {
 			t.VUse = "env"
 		}
@@ -318,6 +328,9 @@ func gSanitize(p *gProg, b gBias) {
 			}
 			if run == "once" && r.VMode == vInherit {
 				r.VMode = vNone // a once task has no V of its own
+			}
+			if r.VMode == vLit && len(r.VLit) == 2 && p.Tasks[r.Target].VUse != "env" {
+				r.VLit = r.VLit[:1]
 			}
 			if tr == "when_changed" && r.VMode == vNone {
 				// "V not passed" and "V passed as empty string" are different variable sets but print the
@@ -412,7 +425,7 @@ func pExpr(p *gProg, t *gTask) string {
 	case "when_changed":
 		switch t.VUse {
 		case "env":
-			return "@" + t.Name + "($EV)"
+			return "@" + t.Name + "($EV$EW)"
 		}
 		return "@" + t.Name + "({{.V}})"
 	}
@@ -435,13 +448,17 @@ func renderRefVars(p *gProg, from *gTask, r gRef, edge string, deferTpl bool) st
 	if effRun(p, tgt) == "always" {
 		pe := pExpr(p, from)
 		if from.VUse == "env" {
-			pe = "@" + from.Name + "({{.V}})" // $EV only exists inside the task's own shell commands
+			pe = "@" + from.Name + "({{.V}}{{.W}})" // $EV / $EW only exist inside the task's own shell commands
 		}
 		kv = append(kv, fmt.Sprintf("P: %s", yq(pe+"/"+edge)))
 	}
 	switch r.VMode {
 	case vLit:
-		kv = append(kv, fmt.Sprintf("V: %s", yq(r.VLit)))
+		if len(r.VLit) == 2 {
+			kv = append(kv, fmt.Sprintf("V: %s, W: %s", yq(r.VLit[:1]), yq(r.VLit[1:])))
+		} else {
+			kv = append(kv, fmt.Sprintf("V: %s", yq(r.VLit)))
+		}
 	case vInherit:
 		kv = append(kv, "V: '{{.V}}'")
 	case vItem:
@@ -475,7 +492,7 @@ func probeText(p *gProg, t *gTask, idx int, c gCmd) string {
 		extra = "V="
 	}
 	if t.VUse == "env" {
-		extra = "V=$EV"
+		extra = "V=$EV$EW"
 	}
 	if c.Defer {
 		extra += "|X={{.EXIT_CODE}}"
@@ -512,6 +529,9 @@ func (p *gProg) render(lo, hi int, root bool) string {
 	var sb strings.Builder
 	sb.WriteString("version: '3'\n")
 	if !root {
+		if p.IncDefaultV {
+			sb.WriteString("vars:\n  V: incv\n")
+		}
 		sb.WriteString("tasks:\n")
 	}
 	if root && p.FileRun != "" {
@@ -585,7 +605,10 @@ func (p *gProg) render(lo, hi int, root bool) string {
 			fmt.Fprintf(&sb, "    prompt: PROMPT-%s\n", t.Name)
 		}
 		if t.VUse == "env" {
-			sb.WriteString("    env:\n      EV: '{{.V}}'\n")
+			sb.WriteString("    env:\n      EV: '{{.V}}'\n      EW: '{{.W}}'\n")
+		}
+		if t.DynVar {
+			fmt.Fprintf(&sb, "    vars:\n      DYN:\n        sh: echo dyn-%s\n", t.Name)
 		}
 		if len(t.Deps) > 0 {
 			sb.WriteString("    deps:\n")
